@@ -3,7 +3,7 @@
 Spec: spec/JsonSession.tla (reader / channel / worker; every request class has
 a non-empty set of admissible answer kinds in every state; invariant
 OneResponsePerRequest, liveness EventuallyAnswered).  TLC enumerates every
-history over the 55-symbol request alphabet (every REPL command of src/commands.rs) up to a bound (and simulates
+history over the 59-symbol request alphabet (every REPL command of src/commands.rs) up to a bound (and simulates
 longer ones) and prints them; each is replayed into a real session, which must
 print exactly one answer per request, of an admissible kind, in order, and
 still answer `1 + 1` afterwards.  `:quit` is the spec's Quit action: the
@@ -73,6 +73,10 @@ REQ = {
     "loadfile": {"method": "run", "input": ":load lib.gdn"},
     "trace": {"method": "run", "input": ":trace"},
     "quit": {"method": "run", "input": ":quit"},
+    "nbspcmd": {"method": "run", "input": ":doc\u00a0f"},
+    "unicmd": {"method": "run", "input": ":\u00e9t\u00e9 x"},
+    "widecmd": {"method": "run", "input": ":type\u3000x"},
+    "nbspsrc": {"method": "run", "input": "1\u00a0+ 1"},
 }
 LIB = 'fun g() { throw("g") }\nfun f() { 7 }\n'
 # the stopped-state focus: composite stops + every evaluation command + abort
@@ -91,10 +95,11 @@ ORDER = ["def", "let", "read", "callthrow", "badprint", "badif", "badwhile", "ba
          "replaceT", "replace5", "test", "abort", "forget", "forgetlocal", "type", "locals", "stack", "fstmts", "fvalues", "nosuchcmd",
          "evalupto", "garbage", "stopthrow", "stopnovar", "stoparg", "stoptest", "replaceBad", "replaceCall",
          "doc", "docnone", "help", "funs", "globals", "methods", "methodsnone", "namespace", "nsswitch", "namespaces", "parse", "parsenone",
-         "search", "source", "types", "uptime", "version", "forgetcalls", "loadmissing", "loadfile", "trace", "quit"]
+         "search", "source", "types", "uptime", "version", "forgetcalls", "loadmissing", "loadfile", "trace", "quit",
+         "nbspcmd", "unicmd", "widecmd", "nbspsrc"]
 assert list(REQ) == ORDER, "REQ and ORDER (= Alphabet of spec/JsonSession.tla) must list the same symbols in the same order"
 # the symbols whose effect on later requests is more than an answer: every length-3 history over CORE is played
-CORE = ORDER[:33] + ["nsswitch", "loadfile", "trace", "quit"]
+CORE = ORDER[:33] + ["nsswitch", "loadfile", "trace", "quit", "nbspcmd"]
 
 
 def histories(maxlen, simulate=None, seed=0, focus=False, allowed=None):
@@ -213,7 +218,7 @@ def run(tier, seed):
     vacuity(quits > 20, "too few histories contain :quit")
     ck.assumptions += ["`interrupt` requests are answered by the reader thread out of band and are not in the alphabet (C08 covers them)",
                        "the admissible answer kinds are deliberately loose: the property is one answer per request, in order, and survival"]
-    return ck.finish(rule="all histories over the 55-symbol alphabet up to the exhaustive bound plus TLC-simulated longer ones; non-trivial = histories that issue :resume/:skip/:replace/:test after a failed evaluation",
+    return ck.finish(rule="all histories over the 59-symbol alphabet up to the exhaustive bound plus TLC-simulated longer ones; non-trivial = histories that issue :resume/:skip/:replace/:test after a failed evaluation",
                      exhaustive=False)
 
 
